@@ -29,7 +29,7 @@ func init() {
 			"the window between the status load and the CAS inside Engine.Shutdown contains no park point; a second Shutdown is only judged when it starts after the first one has begun",
 			"signal handling (Spin) is not exercised",
 		},
-		RequiredProbes: []string{"conn-idle-at-shutdown", "conn-handler-running-at-shutdown", "conn-mid-request-at-shutdown", "hook-slow", "hook-beyond-deadline", "second-shutdown", "shutdown-before-run", "dial-after-shutdown", "wait-expired", "returned-early", "close-hdr-checked", "slow-accept-callback"},
+		RequiredProbes: []string{"conn-idle-at-shutdown", "conn-handler-running-at-shutdown", "conn-mid-request-at-shutdown", "hook-slow", "hook-beyond-deadline", "second-shutdown", "shutdown-before-run", "dial-after-shutdown", "wait-expired", "returned-early", "close-hdr-checked", "slow-accept-callback", "request-received-before-shutdown", "pipelined-request-received-before-shutdown", "listen-error", "slow-reader", "write-backpressure"},
 	}
 }
 
@@ -38,7 +38,18 @@ func RunC18(ep *core.Episode) {
 	S := ep.S
 	nw := core.NewNet(ep)
 	ln := nw.NewListener("ln")
-	standard.VerifListen = func(network, addr string) (net.Listener, error) { return ln, nil }
+	// fault: the listen call fails (address in use), Run returns on its own and Shutdown comes afterwards
+	listenFail := tp.Chance("listenfail", 1, 12)
+	if listenFail {
+		ln.Close() // nothing ever listens: dials are refused
+	}
+	standard.VerifListen = func(network, addr string) (net.Listener, error) {
+		if listenFail {
+			ep.Fault("listen-error")
+			return nil, &net.OpError{Op: "listen", Net: "tcp", Err: fmt.Errorf("address already in use")}
+		}
+		return ln, nil
+	}
 	ep.OnCleanup(func() { standard.VerifListen = nil })
 
 	exitWait := tp.PickDur("exitwait", 50*time.Millisecond, 5*time.Second)
@@ -74,6 +85,7 @@ func RunC18(ep *core.Episode) {
 	var shutdownAt time.Time
 	type hstat struct {
 		conn          string
+		returned      bool
 		afterShutdown bool // handler returned after shutdown began
 	}
 	handled := map[string][]*hstat{}
@@ -92,6 +104,7 @@ func RunC18(ep *core.Episode) {
 		}
 		hmu.Lock()
 		running--
+		hs.returned = true
 		hs.afterShutdown = shutdownCalled
 		hmu.Unlock()
 		ctx.SetStatusCode(200)
@@ -145,10 +158,13 @@ func RunC18(ep *core.Episode) {
 	// clients
 	nconn := tp.Choose("nconn", 7)
 	type cst struct {
-		name string
-		cl   *Client
-		sc   *SrvConn
-		nreq int
+		name    string
+		cl      *Client
+		sc      *SrvConn
+		nreq    int
+		reqEnds []int // offset in the client's byte stream at which request k ends
+		owed    int   // index of the request the server owed an answer when Shutdown was called (-1: none)
+		slow    bool  // the client takes the response bytes in small pieces: the server's writes block
 	}
 	var conns []*cst
 	dialClient := func(i int) *cst {
@@ -160,6 +176,7 @@ func RunC18(ep *core.Episode) {
 		sc := &SrvConn{Name: name, A: b.Peer, B: b}
 		cl := NewClient(ep, sc)
 		nreq := 1 + tp.Choose("nreq", 3)
+		var ends []int
 		for k := 0; k < nreq; k++ {
 			m := &wire.Msg{Proto: "HTTP/1.1", Method: "POST", Target: fmt.Sprintf("/%s/%d", name, k), Headers: []wire.Header{{K: "Host", V: "h"}, {K: "X-Conn", V: name}}}
 			m.Body = core.PatternBytes(byte(k), 5+tp.Choose("blen", 200))
@@ -171,9 +188,20 @@ func RunC18(ep *core.Episode) {
 			}
 			cl.Methods = append(cl.Methods, "POST")
 			cl.Sends = append(cl.Sends, Send{Data: data[:head], AfterResps: after, Bounds: bounds, Label: "head"}, Send{Data: data[head:], Label: "body"})
+			if k > 0 {
+				ends = append(ends, ends[k-1]+len(data))
+			} else {
+				ends = append(ends, len(data))
+			}
 		}
 		cl.CloseWhenDone = tp.Choose("closewhendone", 3) > 0 // some clients keep the idle connection open
-		return &cst{name: name, cl: cl, sc: sc, nreq: nreq}
+		c := &cst{name: name, cl: cl, sc: sc, nreq: nreq, reqEnds: ends, owed: -1}
+		if tp.Chance("slowreader", 1, 4) {
+			c.slow = true
+			sc.A.Out.Cap = tp.Pick("slowcap", 16, 64, 120)
+			ep.Probe("slow-reader")
+		}
+		return c
 	}
 	for i := 0; i < nconn; i++ {
 		if c := dialClient(i); c != nil {
@@ -191,8 +219,8 @@ func RunC18(ep *core.Episode) {
 	firstWasRunning, secondWasRunning := false, false
 	var stillOpen []string
 	shutTask := S.Go("shutdown", func() {
-		// the main shutdown call waits until the engine is up
-		for i := 0; i < 400 && !eng.IsRunning(); i++ {
+		// the main shutdown call waits until the engine is up (or, when listening fails, until Run has given up)
+		for i := 0; i < 400 && !eng.IsRunning() && !(listenFail && runReturned); i++ {
 			S.Yield("wait-until-running")
 		}
 		firstWasRunning = eng.IsRunning()
@@ -223,6 +251,29 @@ func RunC18(ep *core.Episode) {
 				ep.Probe("conn-idle-at-shutdown")
 			}
 			vec = append(vec, st)
+			// what the server owes this connection at this instant: the next request, if all of it has been
+			// delivered to an accepted connection, every earlier one is answered and no handler is running
+			// (a handler that returns after the flip ends the connection by design)
+			accepted := false
+			for _, ac := range ln.AcceptedConns {
+				accepted = accepted || ac == c.sc.A
+			}
+			hmu.Lock()
+			hh := handled[c.name]
+			doneBefore := 0
+			for _, x := range hh {
+				if x.returned {
+					doneBefore++
+				}
+			}
+			if accepted && idleT > 0 && doneBefore == len(hh) && doneBefore < c.nreq && c.reqEnds[doneBefore] <= c.sc.A.ArrivedTo() && !c.sc.A.IsClosed() && !c.sc.B.IsClosed() {
+				c.owed = doneBefore
+				ep.Probe("request-received-before-shutdown")
+				if doneBefore > 0 {
+					ep.Probe("pipelined-request-received-before-shutdown")
+				}
+			}
+			hmu.Unlock()
 		}
 		ep.Sig("flip:" + strings.Join(vec, ","))
 		ep.Logf("  shutdown begins; connection states %v", vec)
@@ -259,6 +310,21 @@ func RunC18(ep *core.Episode) {
 		})
 		ep.Probe("second-shutdown")
 	}
+	// slow readers take what the server wrote piece by piece
+	S.AddSource(core.SourceFunc(func(add func(core.Event)) {
+		for _, c := range conns {
+			c := c
+			if !c.slow || c.sc.B.IsClosed() {
+				continue
+			}
+			if k := c.sc.B.InflightTo(); k > 0 {
+				add(core.Event{Key: "accept " + c.name, Weight: 8, Apply: func() {
+					c.sc.B.AcceptFromWriter(1 + tp.Choose("acck", k))
+					ep.Fault("write-backpressure")
+				}})
+			}
+		}
+	}))
 	// late dials
 	lateDials := 0
 	S.AddSource(core.SourceFunc(func(add func(core.Event)) {
@@ -398,15 +464,31 @@ func RunC18(ep *core.Episode) {
 		}
 	}
 	if !beforeRun {
+		wantHooks := 0
+		if shutErr == nil || (second && shutErr2 == nil) {
+			wantHooks = 1 // hooks belong to the one shutdown that took place
+		}
 		for i, n := range hookCalls {
-			if n != 1 {
+			if n != wantHooks {
 				ep.Fail("C18.hooks", "shutdown hook %d was invoked %d times", i, n)
+				return
+			}
+		}
+	}
+	// a graceful shutdown (nil before the wait expired) has answered every request that had been received completely
+	if shutErr == nil && firstWasRunning && !beforeRun && shutDur < exitWait {
+		for _, c := range conns {
+			if c.owed >= 0 && len(handled[c.name]) <= c.owed {
+				ep.Fail("C18.complete", "connection %s: request %d had been delivered completely before Shutdown was called and everything before it had been answered, but it was never handled (Shutdown returned nil after %v)", c.name, c.owed, shutDur)
 				return
 			}
 		}
 	}
 	// per connection: every handler that was entered produced one complete response
 	for _, c := range conns {
+		if c.slow && !c.sc.B.IsClosed() {
+			c.sc.B.AcceptFromWriter(c.sc.B.InflightTo())
+		}
 		c.cl.Parse()
 		h := handled[c.name]
 		if c.cl.ParseErr != nil {
